@@ -15,6 +15,8 @@ Directives (all start with `//@`):
   //@rules R-a R-b ...
   //@loop <N> [iter=<name>]                     followed by //@| clause lines
   //@closure <N> params="a: T; b: U" ret="(r: X)"   followed by //@| clause lines
+  //@index var:fn var2:fn2                      R-index: `var[i]` on a foreign container becomes `fn(&var, i)`
+  //@binop var-:fn var/:fn2                     R-binop: `var - e` / `&var - e` becomes `fn(var, e)` (operator stub)
   //@outtype <var> <Type>                       type ascription for a rule-introduced `let mut <var> = Vec::new();`
   //@anchor <name> scope=fn|loop:N pos=before|after|start|end [match="regex"] [nth=k]  + //@| lines
   //@end
@@ -61,6 +63,8 @@ class BodyDirective:
         self.loops = {}      # N -> {"iter": name or None, "text": [lines]}
         self.closures = {}   # N -> {"params": [...], "ret": str, "text": [lines]}
         self.anchors = []    # {"name","scope","pos","match","nth","text":[lines]}
+        self.index_map = {}  # R-index: variable -> indexing function
+        self.binop_map = {}  # R-binop: "<var><op>" -> function
         self.outtypes = {}   # name of a rule-introduced collection variable -> its type (ascription only)
 
 
@@ -108,6 +112,14 @@ def parse_template(path):
                 pos, kv = parse_kv(rest)
                 sub = {"name": pos[0], "scope": kv.get("scope", "fn"), "pos": kv.get("pos", "after"), "match": kv.get("match", ""), "nth": int(kv.get("nth", "0")), "text": []}
                 cur.anchors.append(sub)
+            elif word == "index":
+                for tok in rest.split():
+                    k, v = tok.split(":")
+                    cur.index_map[k] = v
+            elif word == "binop":
+                for tok in rest.split():
+                    k, v = tok.rsplit(":", 1)
+                    cur.binop_map[k] = v
             elif word == "outtype":
                 nm, ty = rest.split(None, 1)
                 cur.outtypes[nm] = ty.strip()
@@ -165,6 +177,29 @@ def scan_to_open_brace(text, pos):
     return -1
 
 
+def match_brace(text, pos):
+    """index of the `}` matching the `{` at pos (skipping strings)."""
+    depth = 0
+    i = pos
+    n = len(text)
+    while i < n:
+        c = text[i]
+        if c == '"':
+            i += 1
+            while i < n and text[i] != '"':
+                if text[i] == "\\":
+                    i += 1
+                i += 1
+        elif c == "{":
+            depth += 1
+        elif c == "}":
+            depth -= 1
+            if depth == 0:
+                return i
+        i += 1
+    return -1
+
+
 def find_in_kw(header):
     """position of the ` in ` keyword at depth 0 in a `for PAT in EXPR` header."""
     depth = 0
@@ -200,20 +235,36 @@ def splice_body(body, bd, n_loops, n_closures):
         if spec is None:
             text = text[:p] + text[after:]
             continue
-        b = scan_to_open_brace(text, after)
-        if b < 0:
-            raise Undecided(f"internal: no body brace for loop {k}")
-        header = text[after:b].rstrip()
-        header = re.sub(r"\s*\n\s*", " ", header)
-        if spec["iter"]:
-            if not header.startswith("for "):
-                raise Undecided(f"loop {k} of {bd.kv.get('id')}: iter= given but loop is `{header[:20]}…` (anchor drift)")
-            q = find_in_kw(header)
+        is_for = text.startswith("for ", after)
+        in_pos = -1
+        if is_for:
+            # ` in ` at depth 0 after the pattern
+            q = find_in_kw(text[after:])
             if q < 0:
                 raise Undecided(f"loop {k}: cannot find `in`")
-            header = header[:q] + " in " + spec["iter"] + ": " + header[q + 4:]
+            in_pos = after + q
+            e0 = in_pos + 4
+            while text[e0] in " \n\t":
+                e0 += 1
+            scan_from = e0
+            if text[e0] == "{":
+                # the iterator expression starts with a block: skip it (balanced) before looking for the body
+                close = match_brace(text, e0)
+                scan_from = close + 1
+            b = scan_to_open_brace(text, scan_from)
+        else:
+            b = scan_to_open_brace(text, after)
+        if b < 0:
+            raise Undecided(f"internal: no body brace for loop {k}")
+        if spec["iter"]:
+            if not is_for:
+                raise Undecided(f"loop {k} of {bd.kv.get('id')}: iter= given but the loop is not a `for` loop (anchor drift)")
         ind = line_indent_at(text, p)
         clauses = "".join("\n" + ind + "    " + l.strip() if l.strip() else "" for l in spec["text"])
+        header = text[after:b].rstrip()
+        if is_for and spec["iter"]:
+            rel = in_pos - after
+            header = header[:rel] + " in " + spec["iter"] + ": " + header[rel + 4:]
         text = text[:p] + header + clauses + "\n" + ind + text[b:]
     for k in bd.loops:
         if k > n_loops:
@@ -314,6 +365,8 @@ def assemble(unit, canary=False):
                 # reachability canary: `assert(false)` at the end of the body (after all other end-anchors);
                 # it must FAIL, otherwise the preconditions/assumed contracts are contradictory
                 it["anchors"].append({"name": "__canary", "scope": "fn", "pos": "end", "match": "", "nth": 0})
+            it["index_map"] = bd.index_map
+            it["binop_map"] = bd.binop_map
             for k in ("impl_self", "impl_trait", "in_trait"):
                 if k in kv:
                     it[k] = kv[k]
@@ -321,7 +374,8 @@ def assemble(unit, canary=False):
         elif s[0] == "fields":
             kv = s[1]
             items.append({"id": "struct:" + kv["name"], "file": kv["file"], "kind": "struct", "name": kv["name"],
-                          "drop_fields": [x for x in kv.get("drop", "").split(",") if x]})
+                          "drop_fields": [x for x in kv.get("drop", "").split(",") if x],
+                          "rules": [x for x in kv.get("rules", "").split(",") if x]})
     resp = {r["id"]: r for r in run_vx(items)} if items else {}
     asm = Assembled()
     for s in segs:
@@ -448,10 +502,13 @@ def locate(asm, diag):
     site = None
     descr = []
     for s in spans_sorted:
-        for ln in range(s["line_start"], s["line_end"] + 1):
-            for t in asm.tags.get(ln, []):
-                if t not in tags:
-                    tags.append(t)
+        # labels are read off the clause / assertion / call the diagnostic points at; a span that covers a whole
+        # body ("at the end of the function body") is context, not a clause
+        if s["line_end"] - s["line_start"] <= 5:
+            for ln in range(s["line_start"], s["line_end"] + 1):
+                for t in asm.tags.get(ln, []):
+                    if t not in tags:
+                        tags.append(t)
         for fn in asm.functions:
             if fn["header_start"] <= s["line_start"] <= fn["out_end"]:
                 if site is None or (fn["out_start"] <= s["line_start"]):
